@@ -272,10 +272,10 @@ theorem loop_ordered (env : Env) (world : Nat → Dial) (o : Opts) :
     intro i cur r obj tr hord hfresh hcur
     unfold redirectLoop
     split
-    · simp only
-      split
-      · exact ordered_cleanup env _ obj tr i hord
-      · rename_i url hloc
+    · cases hloc : redirectTarget env r with
+      | error e => simp only; exact ordered_cleanup env _ obj tr i hord
+      | ok url =>
+        simp only
         have hord1 := ordered_snoc_close env tr cur hord
         have hfresh1 : ∀ e ∈ tr ++ [Ev.close cur], evIdx e < i := by
           intro e he
